@@ -6,6 +6,8 @@ from common import read_ndjson
 
 def c08(ctx):
     mc_cc14(ctx)
+    if not ctx.quick:
+        run_apalache(ctx, "Ind_Cc14")
     edges_cc14(ctx)
     res, trace = run_script(ctx, gen.random_plain(ctx.rng, "cc14", ctx.q(60000, 500000)), "random-cc14")
     # the same monitor in its literal, history form (backward scans over the recorded trace)
@@ -69,6 +71,8 @@ def _corrupt_group_out(rows, rng, kind):
 
 def c11(ctx):
     mc_pn(ctx, with_run=False)
+    if not ctx.quick:
+        run_apalache(ctx, "Ind_Pn")
     edges_pn(ctx)
     res, trace = run_script(ctx, gen.random_plain(ctx.rng, "pn", ctx.q(60000, 500000)), "random-pn")
     run_script(ctx, gen.random_plain(ctx.rng, "pn", ctx.q(12000, 80000), seg=250), "random-pn-history",
@@ -98,6 +102,8 @@ def random_poll_traces(ctx, n):
 
 def c13(ctx):
     mc_poll(ctx)
+    if not ctx.quick:
+        run_apalache(ctx, "Ind_Poll", witness="NoPendingMsb")
     edges_poll(ctx)
     res, trace = random_poll_traces(ctx, ctx.q(60000, 500000))
     rows = []
@@ -124,6 +130,8 @@ def vacuity(ctx, keys):
 
 def c14(ctx):
     mc_poll(ctx)
+    if not ctx.quick:
+        run_apalache(ctx, "Ind_Poll", witness="NoFvc")
     edges_poll(ctx)
     res, trace = random_poll_traces(ctx, ctx.q(80000, 600000))
     canary(ctx, trace, corrupt_out("poll", op=("feed",), need_report=True))
